@@ -143,6 +143,20 @@ def scope_without_declarations():
     return 'template/scope-without-declarations', p
 
 
+def generic_call(as_initialiser, widened):
+    """fun <T> foo(x: T): Long = 1;  fun bar() { [val r: Long =] foo<Int | Any>(5) }"""
+    T = tp.TypeParameter('T')
+    foo = ast.FunctionDeclaration('foo', [ast.ParameterDeclaration('x', T)], kt.Long, ast.IntegerConstant(1, kt.Long),
+                                  ast.FunctionDeclaration.FUNCTION, type_parameters=[T])
+    call = ast.FunctionCall('foo', [ast.CallArgument(ast.IntegerConstant(5, kt.Integer))],
+                            type_args=[kt.Any if widened else kt.Integer])
+    stmt = ast.VariableDeclaration('r', call, is_final=True, var_type=kt.Long) if as_initialiser else call
+    bar = ast.FunctionDeclaration('bar', [], kt.Unit, ast.Block([stmt]), ast.FunctionDeclaration.FUNCTION)
+    Q = ast.ClassDeclaration('Qux', [], ast.ClassDeclaration.REGULAR, fields=[], functions=[])
+    return ('template/generic-call-%s-%s' % ('init' if as_initialiser else 'stmt', 'any' if widened else 'int'),
+            _program([Q, foo, bar]))
+
+
 _BUILDERS = {}
 
 
@@ -187,4 +201,7 @@ def all_templates():
         for s_ in (0, 1):
             for t in (0, 1):
                 _reg(out, recursive, r, s_, t)
+    for i in (0, 1):
+        for wd in (0, 1):
+            _reg(out, generic_call, i, wd)
     return out
